@@ -253,6 +253,28 @@ def sharedNormalizer (h0 : Option Nat) (eps : Rat) : Thunk (Option (List UTrans)
     | none => some []
     | some (dbOps, gens) => normalizerAll dbOps gens eps
 
+/-- `MagneticSpaceGroup::new` after `SpaceGroup::new(&ref_spg, Setting::Standard, epsilon)` has produced `sgr`, with the
+(lazy) normalizer of the reference group of a Hall number supplied by `normf` (`identifyMagFrom`: computed from the tables;
+the driver shares one computation between the evaluations of its fragility band). -/
+def identifyMagFromN (normf : Option Nat → Thunk (Option (List UTrans))) (ops : List MOpQ) (eps : Rat) (ctype : Nat)
+    (sgr : Except S5.Err S5.SpaceGroup) : Except Err MagSpaceGroup :=
+  match sgr with
+  | .error e => .error (.sg e)
+  | .ok sg =>
+    match uniRange? sg.number with
+    | none => .error (.sg .spaceGroupType)
+    | some range =>
+      let stdT := sgTrans sg
+      let h0 := range.head?.bind refHall?
+      match range.findSome? (tryUni ops eps ctype stdT h0 (normf h0)) with
+      | some r => r
+      | none => .error .magType
+
+def identifyMagN (normf : Option Nat → Thunk (Option (List UTrans))) (ops : List MOpQ) (eps : Rat) : Except Err MagSpaceGroup :=
+  match identifyReference ops eps with
+  | none => .error .constructType
+  | some (ref, ctype) => identifyMagFromN normf ops eps ctype (S5.identify ref .standard eps)
+
 /-- `MagneticSpaceGroup::new` after `SpaceGroup::new(&ref_spg, Setting::Standard, epsilon)` has produced `sgr`. -/
 def identifyMagFrom (ops : List MOpQ) (eps : Rat) (ctype : Nat) (sgr : Except S5.Err S5.SpaceGroup) :
     Except Err MagSpaceGroup :=
@@ -273,6 +295,10 @@ def identifyMag (ops : List MOpQ) (eps : Rat) : Except Err MagSpaceGroup :=
   match identifyReference ops eps with
   | none => .error .constructType
   | some (ref, ctype) => identifyMagFrom ops eps ctype (S5.identify ref .standard eps)
+
+/-- The proven model is the instance of the parameterised one with the tabulated normalizer. -/
+theorem identifyMag_eq_N (ops : List MOpQ) (eps : Rat) :
+    identifyMag ops eps = identifyMagN (fun h0 => sharedNormalizer h0 eps) ops eps := rfl
 
 /-! ### the executable statement of soundness (evaluated by the driver on every table row; `identify_mag_sound`) -/
 
